@@ -301,6 +301,9 @@ func (g *Gen) genOpts() Opts {
 	}
 	if g.intn(0, 3, "optp") == 0 {
 		o.HasParams, o.Params = true, map[string]string{"k1": "v1", "min": "custom"}
+		if g.p(0.25, "emptyparams") {
+			o.Params = nil // z.Params(map[string]any{}): the test then carries no params at all
+		}
 	}
 	return o
 }
